@@ -229,6 +229,9 @@ func c06Print(n *c06Node, mode string, rec bool) string {
 		if rec {
 			return fmt.Sprintf("o(%d, %s)", n.id, n.leaf.src)
 		}
+		if mode == "leafparens" {
+			return "(" + n.leaf.src + ")"
+		}
 		return n.leaf.src
 	}
 	if n.op == "!" {
@@ -301,6 +304,7 @@ func c06Check(t *engine.T, shape string, root *c06Node) {
 	}{
 		{"min", minimal, false},
 		{"full", c06Print(root, "full", false), false},
+		{"leafparens", c06Print(root, "leafparens", false), false},
 		{"rec", c06Print(root, "min", true), true},
 	}
 	nontrivial := root.l != nil && (root.l.op != "" || (root.r != nil && root.r.op != ""))
@@ -362,17 +366,17 @@ func init() {
 		Shards: func(th bool) []string {
 			s := []string{"depth1"}
 			for _, op := range c06Ops {
-				s = append(s, "L:"+op, "R:"+op, "LR:"+op, "N:"+op)
+				s = append(s, "L:"+op, "R:"+op, "LR:"+op, "N:"+op, "D3:"+op)
 			}
 			return s
 		},
 		Run:  c06Run,
-		Rule: "expression trees over the pool {0,1,2,7,-3 (variable),1.5,2.0,\"a\",\"b\",\"\",true,false,nil} and all 13 binary operators + '!': every depth-1 tree; every (a∘b)∘c and a∘(b∘c) for all operator pairs and all operand triples; every (a∘b)∘(c∘d) for all operator triples over a reduced pool; '!' applied to leaves and subtrees. Each tree is printed with minimal parentheses under the stated precedence table, with full parentheses, and with recording operands (short-circuit observation), rendered on the real code and compared with a reference evaluator in Go. Unspecified coercions (bool op non-bool, string compared with non-string, bool+bool) are only checked for totality. Non-trivial: tree has at least two operators.",
+		Rule: "expression trees over the pool {0,1,2,7,-3 (variable),1.5,2.0,\"a\",\"b\",\"\",true,false,nil} and all 13 binary operators + '!': every depth-1 tree; every (a∘b)∘c and a∘(b∘c) for all operator pairs and all operand triples; every (a∘b)∘(c∘d) for all operator triples over a reduced pool; the depth-3 chains a∘((b∘c)∘d), ((a∘b)∘c)∘d, a∘(b∘(c∘d)) for all operator triples over a pool of 3 (5 thorough); '!' applied to leaves and subtrees. Each tree is printed with minimal parentheses under the stated precedence table, with full parentheses, with redundant parentheses around every leaf, and with recording operands (short-circuit observation), rendered on the real code and compared with a reference evaluator in Go. Unspecified coercions (bool op non-bool, string compared with non-string, bool+bool) are only checked for totality. Non-trivial: tree has at least two operators.",
 		Bound: func(th bool) string {
 			if th {
-				return "depth-2 trees; 4-leaf shape over a pool of 7 operands, 3-leaf shapes over all 13"
+				return "depth-2 trees (4-leaf shape over a pool of 7 operands, 3-leaf shapes over all 13) and depth-3 chains over a pool of 5"
 			}
-			return "depth-2 trees; 4-leaf shape over a pool of 5 operands, 3-leaf shapes over all 13"
+			return "depth-2 trees (4-leaf shape over a pool of 5 operands, 3-leaf shapes over all 13) and depth-3 chains over a pool of 3"
 		},
 	})
 }
@@ -423,6 +427,26 @@ func c06Run(t *engine.T, shard string) {
 						for c := 0; c < m; c++ {
 							for d := 0; d < m; d++ {
 								c06Check(t, "(a∘b)∘(c∘d)", &c06Node{op: op, l: &c06Node{op: o1, l: leaf(a), r: leaf(b)}, r: &c06Node{op: o3, l: leaf(c), r: leaf(d)}})
+							}
+						}
+					}
+				}
+			}
+		}
+	case "D3": // depth-3 chains: a op ((b o2 c) o3 d), ((a o2 b) o3 c) op d, a op (b o2 (c o3 d))
+		m := 3
+		if t.Thorough {
+			m = 5
+		}
+		for _, o2 := range c06Ops {
+			for _, o3 := range c06Ops {
+				for a := 0; a < m; a++ {
+					for b := 0; b < m; b++ {
+						for c := 0; c < m; c++ {
+							for d := 0; d < m; d++ {
+								c06Check(t, "a∘((b∘c)∘d)", &c06Node{op: op, l: leaf(a), r: &c06Node{op: o3, l: &c06Node{op: o2, l: leaf(b), r: leaf(c)}, r: leaf(d)}})
+								c06Check(t, "((a∘b)∘c)∘d", &c06Node{op: op, l: &c06Node{op: o3, l: &c06Node{op: o2, l: leaf(a), r: leaf(b)}, r: leaf(c)}, r: leaf(d)})
+								c06Check(t, "a∘(b∘(c∘d))", &c06Node{op: op, l: leaf(a), r: &c06Node{op: o2, l: leaf(b), r: &c06Node{op: o3, l: leaf(c), r: leaf(d)}}})
 							}
 						}
 					}
